@@ -418,10 +418,10 @@ class NameServer(object):
                 if isinstance(meta_any, str):
                     raise TypeError("metadata_any should not be a str, but another iterable (set, list, etc)")
                 meta_any and iter(meta_any)   # validate that metadata is iterable
+                meta_any = frozenset(meta_any)
                 result = self.storage.optimized_metadata_search(metadata_any=meta_any, return_metadata=return_metadata)
                 if result is not None:
                     return result
-                meta_any = frozenset(meta_any)
                 result = {}
                 for name, (uri, meta) in self.storage.everything(return_metadata=True).items():
                     if meta_any & meta:
